@@ -261,7 +261,8 @@ def labeller_event(name, f, n_in, feeds=None):
     ev["commutes"] = bool(comm)
     # wrong sizes are refused
     rej = []
-    for n in (n_in - 1, n_in + 1, 0, 1):
+    sizes = {n_in - 1, n_in + 1, 0, 1} | set(k[0] for k in (feeds or {}).keys()) | {x[2] for x in labellers()}
+    for n in sorted(sizes):
         if n == n_in or n < 0:
             continue
         Q = np.array([[float(i), float(i * i)] + ([0.5] if d == 3 else []) for i in range(n)]).reshape(n, d)
